@@ -139,7 +139,8 @@ def run_unit(unit, repo, workdir, rlimit=None, seed=None, extra=None):
         cmd += extra
     ur.cmd = ' '.join(cmd)
     try:
-        p = subprocess.run(cmd, cwd=workdir, stdout=subprocess.PIPE, stderr=subprocess.PIPE, timeout=3000)
+        p = subprocess.run(cmd, cwd=workdir, stdout=subprocess.PIPE, stderr=subprocess.PIPE, timeout=3000,
+                           env=dict(os.environ, RUST_MIN_STACK='2000000000'))
     except subprocess.TimeoutExpired:
         ur.undecided = 'verus timed out on unit %s' % unit
         ur.wall_s = time.time() - t0
